@@ -1,7 +1,7 @@
 """C13 -- fusing jointless bodies on load preserves the model's geometry.
 
 The REAL functions brax.io.mjcf._offset / _fuse_bodies are executed on ElementTree documents whose pose attributes are SYMBOLIC
-(Engine P proxies).  Two mechanical AST rewrites (applied on every run, pattern counts asserted -- anything else fails closed) replace the
+(Engine P proxies).  Two mechanical AST rewrites (applied on every run; afterwards no other text<->number conversion may remain in the three functions -- anything else fails closed) replace the
 text<->number conversions so that attributes can hold symbolic arrays:
       np.fromstring(X, sep=' ')                 ->  _FS(X)          (parse if X is a string, else pass the array through)
       ' '.join('%f' % i for i in X)             ->  _JN(X)          (keep the array)
@@ -91,8 +91,13 @@ def extracted():
     raise AssertionError('mjcf.py: expected _transform_do, _offset, _fuse_bodies; found %s' % [n.name for n in keep])
   rw = _Rewrite()
   mod = ast.fix_missing_locations(ast.Module(body=[rw.visit(n) for n in keep], type_ignores=[]))
-  if rw.n != {'fromstring': 6, 'join_fmt': 3, 'split': 2}:
-    raise AssertionError('mjcf.py text<->number patterns changed: %s (expected 6 fromstring, 3 formatted joins, 2 fromto splits)' % rw.n)
+  # fail closed: every text<->number conversion in the three functions must have been recognised by one of the three rewrites
+  left = ast.unparse(mod)
+  for frag in ('fromstring', "'%f'", '.split(', 'float(', 'format('):
+    if frag in left:
+      raise AssertionError('mjcf.py: an unrecognised text<->number conversion (%s) remains after the mechanical rewrite: %s' % (frag, rw.n))
+  if rw.n['fromstring'] < 3 or rw.n['join_fmt'] < 2:
+    raise AssertionError('mjcf.py: too few text<->number conversions recognised: %s' % rw.n)
   from typing import Tuple
   ns = {'np': np, 'math': math, 'ElementTree': ElementTree, 'Tuple': Tuple, '_FS': _FS, '_JN': _JN, '_SL': _SL}
   exec(compile(mod, path + ' [rewritten]', 'exec'), ns)
